@@ -290,3 +290,60 @@ def shipped_pairs(v, tier, seed):
             seen.add(k)
             v.violations.append({"prop": "C04", "key": k, "detail": d, "path": [k]})
     v.extra["shipped"] = {"pairs": len(pairs), "converted": code["ok"], "conversion_not_found": code["cnf"], "violating_pairs": len(code["bad"])}
+
+
+# =============================================================================== C08 on the shipped definitions
+
+def _ship_cold(pair):
+    a, b = pair
+    from measured import Unit, conversions
+    try:
+        return ["ok", repr((1 * Unit._by_name[a]).in_unit(Unit._by_name[b]).magnitude)]
+    except conversions.ConversionNotFound:
+        return ["CNF", ""]
+    except Exception as ex:
+        return ["OTHER:" + type(ex).__name__, ""]
+
+
+def _ship_explore(args):
+    """in an isolated child with every shipped module imported: each pair in a fresh fork (cold), then all pairs in this one
+    process in a seeded random order (warm); the shipped graph has redundant, slightly different routes (survey foot vs
+    international foot), so a route chosen because of what was asked earlier shows as a different value"""
+    pairs, seed = args
+    sys.path.insert(0, os.path.join(REPO, "src"))
+    import random
+    import measured.systems  # noqa: F401
+    from core import parallel_isolated
+    cold = parallel_isolated(_ship_cold, pairs)
+    order = list(range(len(pairs)))
+    random.Random(seed).shuffle(order)
+    warm = [None] * len(pairs)
+    for i in order:
+        warm[i] = _ship_cold(pairs[i])
+    again = [_ship_cold(p) for p in pairs]
+    return {"cold": cold, "warm": warm, "again": again}
+
+
+def shipped_history_independence(v, tier, seed):
+    info = run_isolated(intercept, None)
+    classes = {}
+    for u in info["units"]:
+        if u["base"] and u["physical"] and not u.get("scale"):
+            classes.setdefault(tuple(u["dim"]), []).append(u["name"])
+    import random
+    rng = random.Random(seed)
+    pairs = [(a, b) for ns in classes.values() for a in ns for b in ns if a != b]
+    if tier == "quick" and len(pairs) > 1200:
+        pairs = rng.sample(pairs, 1200)
+    res = run_isolated(_ship_explore, (pairs, seed))
+    ndiff = 0
+    for (a, b), c, w, g in zip(pairs, res["cold"], res["warm"], res["again"]):
+        for what, x in (("after-other-conversions", w), ("asked-again", g)):
+            if x != c:
+                ndiff += 1
+                v.violations.append({"prop": "C08", "key": "shipped:history-dependent:%s->%s" % (a, b),
+                                     "detail": "1 %s in %s: fresh process %s, %s %s" % (a, b, c, what, x), "path": [a, b]})
+                break
+    v.impl += 3 * len(pairs)
+    v.evaluations += 3 * len(pairs)
+    v.extra["shipped_cold_vs_warm"] = {"pairs": len(pairs), "differences": ndiff}
